@@ -104,7 +104,7 @@ pub fn canonical(w: &World, res: &EvalOut, h_in: &BTreeMap<String, String>, extr
     for s in act.iter() {
         let id = w.id(*s);
         v.push(w.kind(*s) as u64);
-        v.push(w.st[*s].parts.count_ones() as u64);
+        v.push(w.parts(*s).count_ones() as u64);
         v.push(res.disp.get(&id).map(|d| *d as u64 + 1).unwrap_or(0));
         v.push(h_in.contains_key(&id) as u64);
         for (u, _) in w.deps_of(*s) {
@@ -205,12 +205,34 @@ pub fn run_case(sc: &Scenario, mode: &Mode) -> CaseOut {
             let rt = safe_eval(&mut wt, plan, &plan.sched, &plain);
             out.evals += 1;
             if rt.engine_error.is_none() {
-                if rt.disp != res.disp {
-                    vs.push(Violation { prop: "C20", clause: "outcome-differs-from-probe-free-run/dispositions".into(), detail: format!("{:?} vs {:?}", res.disp, rt.disp) });
-                } else if rt.new_history != res.new_history {
-                    vs.push(Violation { prop: "C20", clause: "outcome-differs-from-probe-free-run/history".into(), detail: String::new() });
-                } else if wt.disk != w.disk {
-                    vs.push(Violation { prop: "C20", clause: "outcome-differs-from-probe-free-run/disk".into(), detail: String::new() });
+                let differs = rt.disp != res.disp || rt.new_history != res.new_history || wt.disk != w.disk;
+                if differs {
+                    // The engine's own hash iteration order can change *when* a job is first offered
+                    // (seen on the unchanged tree: the ready set after event_startup of one and the same
+                    // graph and history is {a} or {a, b} from run to run), and with a failure in the
+                    // evaluation that changes the outcome under one and the same choice stream. Only an
+                    // outcome that no probe-free repetition reaches, while no repetition of the probed run
+                    // reaches a probe-free one, is attributed to the probes.
+                    let mut free: Vec<(BTreeMap<String, Disp>, Option<BTreeMap<String, String>>, BTreeMap<String, u64>)> = vec![(rt.disp.clone(), rt.new_history.clone(), wt.disk.clone())];
+                    let mut probed = vec![(res.disp.clone(), res.new_history.clone(), w.disk.clone())];
+                    for _ in 0..10 {
+                        let mut wa = pre.clone();
+                        let ra = safe_eval(&mut wa, plan, &plan.sched, &plain);
+                        free.push((ra.disp.clone(), ra.new_history.clone(), wa.disk.clone()));
+                        let mut wb = pre.clone();
+                        let rb = safe_eval(&mut wb, plan, &plan.sched, &opts);
+                        probed.push((rb.disp.clone(), rb.new_history.clone(), wb.disk.clone()));
+                        out.evals += 2;
+                    }
+                    if probed.iter().any(|p| free.contains(p)) {
+                        out.add("c20_twin_differences_explained_by_engine_nondeterminism", 1);
+                    } else if rt.disp != res.disp {
+                        vs.push(Violation { prop: "C20", clause: "outcome-differs-from-probe-free-run/dispositions".into(), detail: format!("{:?} vs {:?}", res.disp, rt.disp) });
+                    } else if rt.new_history != res.new_history {
+                        vs.push(Violation { prop: "C20", clause: "outcome-differs-from-probe-free-run/history".into(), detail: String::new() });
+                    } else {
+                        vs.push(Violation { prop: "C20", clause: "outcome-differs-from-probe-free-run/disk".into(), detail: String::new() });
+                    }
                 }
             }
         }
